@@ -46,7 +46,7 @@ AUT *g_this, *g_ret; void *g_local, *m_this;
   __CPROVER_ensures(BEQ(ssf_w, fin_wf && r_wf)) \
   __CPROVER_ensures(r_wx ==> just_wx) \
   __CPROVER_ensures(!g_found_f ==> !pend_wc)
-#define P1 __CPROVER_loop_invariant(CONS && v_remaining_slot == g_rem && BEQ(r_wc, pend_wc) && (rt_w ==> w_leaf) && (sm_w ==> !w_leaf) && !w_erased)
+#define P1 __CPROVER_loop_invariant(!g_found_f && CONS && v_remaining_slot == g_rem && BEQ(r_wc, pend_wc) && (rt_w ==> w_leaf) && (sm_w ==> !w_leaf) && !w_erased)
 #define LOOPASG_CAND__L_OWNERS , G_OWN
 #define LOOP_CAND__L_OWNERS P1 \
   __CPROVER_loop_invariant(END_CAND__L_OWNERS.f0.f0 == 0) \
